@@ -799,6 +799,43 @@ def extract_flags():
     _t = ast.parse(textwrap.dedent(inspect.getsource(_rv.RendezvousConnector)))
     _cs = [n for n in ast.walk(_t) if isinstance(n, ast.Call) and _call_name(n).endswith("ClientService")]
     flags["clientservice_plain_constructor"] = (len(_cs) == 1 and len(_cs[0].args) == 2 and not _cs[0].keywords)
+    # C01: the code string the application passes is the string that reaches Boss.got_code / Key.got_code
+    # (and from there SPAKE2): nobody on the way rebinds it, and validate_code is a predicate (returns nothing)
+    from wormhole import _code as _c01code, _boss as _c01boss
+
+    def _fn(klass, name):
+        f = vars(klass)[name]
+        return f.method if hasattr(f, "method") and callable(getattr(f, "method")) else f
+
+    def _passes_unchanged(func, param, callees):
+        fn = ast.parse(textwrap.dedent(inspect.getsource(func))).body[0]
+        for node in ast.walk(fn):
+            targets = []
+            if isinstance(node, ast.Assign):
+                targets = node.targets
+            elif isinstance(node, (ast.AugAssign, ast.AnnAssign, ast.NamedExpr, ast.For, ast.comprehension)):
+                targets = [node.target]
+            elif isinstance(node, ast.With):
+                targets = [i.optional_vars for i in node.items if i.optional_vars is not None]
+            for t in targets:
+                if any(isinstance(n, ast.Name) and n.id == param for n in ast.walk(t)):
+                    return False          # the parameter is rebound
+        seen = set()
+        for node in ast.walk(fn):
+            if isinstance(node, ast.Call) and _call_name(node) in callees:
+                if node.keywords or len(node.args) != 1 or not (isinstance(node.args[0], ast.Name) and node.args[0].id == param):
+                    return False
+                seen.add(_call_name(node))
+        return seen == set(callees)
+    vc = ast.parse(textwrap.dedent(inspect.getsource(_c01code.validate_code))).body[0]
+    flags["validate_code_returns_nothing"] = not any(isinstance(n, ast.Return) and n.value is not None for n in ast.walk(vc))
+    flags["code_string_passed_unchanged"] = all([
+        _passes_unchanged(_c01boss.Boss.set_code, "code", ["_C.set_code"]),
+        _passes_unchanged(_c01code.Code.set_code, "code", ["self._set_code"]),
+        _passes_unchanged(_fn(_c01code.Code, "do_set_code"), "code", ["_B.got_code", "_K.got_code"]),
+        _passes_unchanged(_fn(_c01code.Code, "do_finish_input"), "code", ["_B.got_code", "_K.got_code"]),
+        _passes_unchanged(_fn(_c01code.Code, "do_finish_allocate"), "code", ["_B.got_code", "_K.got_code"]),
+    ])
     return flags
 
 
@@ -1320,6 +1357,24 @@ def extract_transit():
     L.append(f"def endpoint_from_hint_obj_total : Bool := {'true' if total else 'false'}")
     L.append("/-- building an endpoint cannot make `_connect` raise between starting attempts and wrapping them -/")
     L.append(f"def connect_endpoint_errors_contained : Bool := {'true' if (in_try or total) else 'false'}")
+    # inbound connections: does InboundConnectionFactory.connectionWasMade start the negotiation at once
+    # (`d = p.startNegotiation()` as its first, unconditional statement), and does Connection.dataReceived hand every
+    # call to the try/_dataReceived wrapper (no state in which bytes are silently buffered before negotiation)?
+    src = textwrap.dedent(inspect.getsource(tr.InboundConnectionFactory.connectionWasMade))
+    fn = ast.parse(src).body[0]
+    body = [st for st in fn.body if not (isinstance(st, ast.Expr) and isinstance(st.value, ast.Constant))]
+    first = body[0] if body else None
+    at_once = (isinstance(first, ast.Assign) and isinstance(first.value, ast.Call)
+               and isinstance(first.value.func, ast.Attribute) and first.value.func.attr == "startNegotiation"
+               and not first.value.args)
+    src = textwrap.dedent(inspect.getsource(tr.Connection.dataReceived))
+    fn = ast.parse(src).body[0]
+    body = [st for st in fn.body if not (isinstance(st, ast.Expr) and isinstance(st.value, ast.Constant))]
+    wrapped = len(body) == 1 and isinstance(body[0], ast.Try)
+    L.append("/-- `InboundConnectionFactory.connectionWasMade` starts with `d = p.startNegotiation()`, unconditionally -/")
+    L.append(f"def inbound_negotiates_at_once : Bool := {'true' if at_once else 'false'}")
+    L.append("/-- `Connection.dataReceived` is nothing but the try/except around `_dataReceived` -/")
+    L.append(f"def data_received_is_wrapper_only : Bool := {'true' if wrapped else 'false'}")
     L.append("end WV.Gen.Transit")
     return "\n".join(L) + "\n"
 
